@@ -32,6 +32,7 @@ CONSTANTS
   IncOf(_),            \* incarnation number the host gives the key with a guid (0: none)
   StatusInc,           \* incarnation number the status document carries for the latched key (0: none); the host may state it
                        \* in the status document, in the key document, in both, or number them differently
+  SearchOnlyWhenEmpty, \* TRUE: a design variant that looks for the named key in the local store only while no key is in memory
   HostSpellsOddly,     \* TRUE: the host writes its guids in a legal spelling other than lower case with hyphens
   FetchCanonicalises,  \* TRUE: a design variant whose look-up of the local key rewrites the guid to the canonical
                        \* spelling while the store keeps the host's spelling
@@ -223,7 +224,7 @@ NeedKey ==
   /\ LET st == StateOf(Status.doc)
          ng == Status.named IN
        pc' = IF ~IsDisabled(st) /\ (ng = "none" \/ ng # mem.key)
-             THEN (IF ng # "none" THEN "FetchLocal" ELSE "Acquire")
+             THEN (IF ng # "none" /\ (SearchOnlyWhenEmpty => mem.key = "none") THEN "FetchLocal" ELSE "Acquire")
              ELSE "UpdChannelState"
   /\ IF StateEarly
      THEN /\ mem' = [mem EXCEPT !.state = StateOf(Status.doc)]
